@@ -345,7 +345,7 @@ structure Flags where
   metricsPort : Int := 9113
   healthPort  : Int := 8081
   plus       : Bool := false
-  deriving Repr
+  deriving Repr, DecidableEq
 
 /-- `Value.Set` of the flag; `none` = the validator returned an error -/
 def setFlag (cfg : Cfg) (st : Flags) (f : Flag) (v : Str) : Option Flags :=
@@ -375,7 +375,7 @@ inductive CmdRes
   | telemetryBool            -- build-time telemetryEndpointInsecure does not parse
   | plusSecret               -- --nginx-plus without usage-report-secret
   | validated (st : Flags)   -- every check passed; the next statement builds the pod config and starts the manager
-  deriving Repr
+  deriving Repr, DecidableEq
 
 /-- pflag: the settings are applied left to right, the first refused one aborts -/
 def applyFlags (cfg : Cfg) : Flags → Nat → List (Flag × Str) → Except Nat Flags
@@ -393,11 +393,24 @@ def runE (cfg : Cfg) (tEndpoint tInsecure : Str) (st : Flags) : CmdRes :=
   else if st.plus && st.urSecret.isEmpty then .plusSecret
   else .validated st
 
+/-- the flag values before any `Set`: the defaults of `createStaticModeCommand` -/
+def initFlags : Flags := {}
+
 def runStatic (cfg : Cfg) (tEndpoint tInsecure : Str) (args : List (Flag × Str)) : CmdRes :=
-  match applyFlags cfg {} 0 args with
+  match applyFlags cfg initFlags 0 args with
   | .error i => .flagErr i
   | .ok st =>
     if st.ctlrName.isNone || st.gatewayClass.isNone then .required
     else runE cfg tEndpoint tInsecure st
+
+/-! ### the mgmt template for a configuration with only the licence token (what the harness renders) -/
+
+/-- `mgmtConfigTemplateText` executed with Endpoint = ep, Resolver = res, no CA / client certificate,
+SkipVerify = false -/
+def renderMgmt (ep res : Str) : Str :=
+  "\nmgmt {".toList ++
+  (if ep.isEmpty then [] else "\n\tusage_report endpoint=".toList ++ ep ++ ";".toList) ++
+  (if res.isEmpty then [] else "\n\tresolver ".toList ++ res ++ ";".toList) ++
+  "\n\tlicense_token /etc/nginx/secrets/license.jwt;\n\tdeployment_context /etc/nginx/main-includes/deployment_ctx.json;\n}\n".toList
 
 end NGF.Cli
